@@ -188,7 +188,13 @@ func (m *UnboundedSegmentedMailbox) Dequeue() *ReceiveContext {
 			atomic.AddInt64(&m.length, -1)
 			return val
 		}
-		// current segment is drained; move to next if available
+		// The segment may only be left once all of its slots have been consumed.
+		// enq was read before next: producers may have reserved and published more
+		// slots of this segment (and linked a successor) since then, so a non-nil
+		// next alone does not mean this segment is drained.
+		if deq < segmentSize {
+			return nil
+		}
 		next := seg.next.Load()
 		if next == nil {
 			return nil
